@@ -28,6 +28,7 @@ VERUS_UNITS = {
     "kern": ("units_kern", ["C19"]),
     "own": ("units_own", ["C09"]),
     "evloop": ("units_evloop", ["C11"]),
+    "exitev": ("units_exitev", ["C16", "C17"]),
 }
 # units in which a lock guard is encoded as a `&mut` borrow of its owner (rule R8)
 R8_UNITS = ("frontend", "proxy", "gpu")
@@ -43,7 +44,8 @@ VERUS_ALSO = {"C09": ["chunk"], "C01": ["chunk"], "C14": ["misc"], "C16": ["evlo
               # every frame written / read goes through the partial-I/O loops of unit chunk (the units of these properties stub
               # send_message* / recv_* by contracts whose proof ends there): see CHARGE_RULES
               "C02": ["chunk"], "C03": ["chunk"], "C04": ["chunk"], "C05": ["chunk"], "C06": ["chunk"], "C18": ["chunk"],
-              "C11": ["rank"]}
+              # [..,C11] clause of VringEpollHandler::new: the worker dispatches on ITS ring slice
+              "C11": ["rank", "exitev"]}
 for _p, _us in VERUS_ALSO.items():
     for _u in _us:
         if _u not in VERUS_FOR.setdefault(_p, []):
